@@ -239,6 +239,9 @@ pub fn kernel_fib_case(cx: &mut Ctx, n: u64, case: &Value) {
 /// Gen_Orient cases: coordinates given as limbs (base 2^13, least significant first) and a binary exponent; every value has
 /// at most 53 significant bits, so the sum below is exact.  The exact orientation comes from BigInt.tla.
 pub fn kernel_big_case(cx: &mut Ctx, n: u64, case: &Value) {
+    if cx.wants("C05") && !cx.wants("C03") {
+        return winding_big_case(cx, case);
+    }
     if !cx.wants("C03") {
         return;
     }
@@ -288,5 +291,44 @@ pub fn kernel_big_case(cx: &mut Ctx, n: u64, case: &Value) {
         let inner = f((-b0.1 / 4.0, b0.0 / 4.0));
         let meets = Line::new(a, b).intersects(&Line::new(c, inner));
         if meets == (so != 1) { cx.ok("big_segment_intersects"); } else { cx.bad("C03", "big_segment_intersects", case, json!({"what": what, "got": meets, "want": so != 1})); }
+    }
+}
+
+/// C05 on the Gen_Orient triples: the thin ring a, b, c, a (generic 53-bit mantissas, a very sharp corner at its
+/// lexicographically least vertex) has the winding order given by the exact sign, and orient() turns it accordingly.
+fn winding_big_case(cx: &mut Ctx, case: &Value) {
+    use geo::orient::{Direction, Orient};
+    let num = |k: &str, e: &str| -> f64 {
+        let mut v = 0.0f64;
+        for l in case[k].as_array().unwrap().iter().rev() {
+            v = v * 8192.0 + l.as_f64().unwrap();
+        }
+        v * 2f64.powi(case[e].as_i64().unwrap() as i32)
+    };
+    let (a, b, c) = (Coord { x: num("ax", "aexp"), y: num("ay", "aexp") }, Coord { x: num("bx", "bexp"), y: num("by", "bexp") }, Coord { x: num("cx", "cexp"), y: num("cy", "cexp") });
+    let so = case["orient"].as_i64().unwrap();
+    cx.count("winding_big_cases", 1);
+    if so == 0 {
+        return;
+    }
+    let want = if so == 1 { WindingOrder::CounterClockwise } else { WindingOrder::Clockwise };
+    for (what, ring) in [("a b c a", vec![a, b, c, a]), ("b c a b", vec![b, c, a, b]), ("c a b c", vec![c, a, b, c])] {
+        let ls = LineString::new(ring);
+        let got = ls.winding_order();
+        if got == Some(want) && ls.is_ccw() == (so == 1) && ls.is_cw() == (so == -1) { cx.ok("winding_order_thin_ring"); } else {
+            cx.bad("C05", "winding_order_thin_ring", case, json!({"what": what, "got": format!("{got:?}"), "want": format!("{want:?}")}));
+        }
+        let rev = LineString::new(ls.0.iter().rev().cloned().collect());
+        let gotr = rev.winding_order();
+        let wantr = if so == 1 { WindingOrder::Clockwise } else { WindingOrder::CounterClockwise };
+        if gotr == Some(wantr) { cx.ok("winding_order_thin_ring"); } else {
+            cx.bad("C05", "winding_order_thin_ring", case, json!({"what": format!("{what} reversed"), "got": format!("{gotr:?}"), "want": format!("{wantr:?}")}));
+        }
+        // orient: exterior counter-clockwise by default
+        let o = Polygon::new(ls.clone(), vec![]).orient(Direction::Default);
+        let keeps = o.exterior().0 == ls.0;
+        if keeps == (so == 1) { cx.ok("orient_thin_ring"); } else {
+            cx.bad("C05", "orient_thin_ring", case, json!({"what": what, "kept_as_is": keeps, "ring_is_ccw": so == 1}));
+        }
     }
 }
